@@ -9,7 +9,7 @@
    the documented tokenizer on every run. *)
 From Coq Require Import List ZArith Bool.
 Import ListNotations.
-From LC Require Import Base Tree Api Writer TreeFacts WriterFacts.
+From LC Require Import Base Tree Api Writer TreeFacts WriterFacts Tokens Lexer Reader LexWrite OptFacts.
 Local Open Scope Z_scope.
 
 (* the output is exactly the rendering of the pieces, in order *)
@@ -87,3 +87,17 @@ Example C19_example :
   config_write (fun _ _ _ => [49; 46; 53]) cfg19a <> config_write (fun _ _ _ => [49; 46; 53]) cfg19b /\
   erase (pieces cfg19a ex19 0) = erase (pieces cfg19b ex19 0).
 Proof. split; [vm_compute; discriminate | reflexivity]. Qed.
+
+(* ---- the same statement on the compiled scanner (from the C01 development): two configurations with the same
+   tree and the same spelling attributes (default format, precision, scientific notation), whatever their other
+   output options and tab widths, are written as texts that the flex automaton of the generated tables reads as
+   the same token sequence, semicolons aside ---- *)
+Theorem C19_scanner_tokens_option_free : forall fmt_double atof FS c c' c2 kids f h l fi,
+  c_root c = Setting None PGroup kids f h l fi -> c_root c' = c_root c -> kids <> [] ->
+  writable fmt_double atof c (c_root c) -> writable fmt_double atof c' (c_root c') -> same_spelling c c' ->
+  exists toks toks',
+    lex_top atof FS c2 None (config_write fmt_double c) = (toks, StopEOB) /\
+    lex_top atof FS c2 None (config_write fmt_double c') = (toks', StopEOB) /\
+    filter not_semi (map lt_tok toks') = filter not_semi (map lt_tok toks).
+Proof. exact scanner_tokens_option_free. Qed.
+Print Assumptions C19_scanner_tokens_option_free.
